@@ -441,11 +441,20 @@ impl<T> DataReaderEntity<T> {
                 }
             }
 
+            let is_not_alive = matches!(
+                sample.kind,
+                ChangeKind::NotAliveDisposed
+                    | ChangeKind::NotAliveUnregistered
+                    | ChangeKind::NotAliveDisposedUnregistered
+            );
             match self
                 .instance_ownership
                 .iter_mut()
                 .find(|x| x.instance_handle == sample.instance_handle)
             {
+                // A writer that gives the instance up does not take it over from the current
+                // owner by doing so, however strong it is
+                Some(x) if is_not_alive && x.owner_handle != sample.writer_guid => (),
                 Some(x) => {
                     x.owner_handle = sample.writer_guid;
                 }
@@ -463,11 +472,10 @@ impl<T> DataReaderEntity<T> {
                 | ChangeKind::NotAliveUnregistered
                 | ChangeKind::NotAliveDisposedUnregistered
         ) {
-            if let Some(i) = self
-                .instance_ownership
-                .iter()
-                .position(|x| x.instance_handle == sample.instance_handle)
-            {
+            // The owner gives the instance up: the next writer takes over
+            if let Some(i) = self.instance_ownership.iter().position(|x| {
+                x.instance_handle == sample.instance_handle && x.owner_handle == sample.writer_guid
+            }) {
                 self.instance_ownership.remove(i);
             }
         }
